@@ -80,6 +80,7 @@ fn gen_case(r: &mut Rng, k: usize) -> Case {
         sched: vec![],
         rng: r.next() | 1,
         sticky: *r.pick(&[0, 50, 80]),
+        script: vec![],
     }
 }
 
